@@ -51,9 +51,10 @@ VARIABLES
   stats,      \* [recv, lost, recovered]
   lastDel,    \* last_delivered_seq, -1 = none
   excused,    \* ghost: payloads that reached the receiver only when already behind `expected` (late, duplicate)
-  hist
+  base,       \* ghost: length of the history at the last reset (the contract speaks about one epoch)
+  hist        \* sequence of [op |-> "recv" | "reset", k |-> datagram index]
 
-vars == <<cfg, exp, buf, out, delivered, stats, lastDel, excused, hist>>
+vars == <<cfg, exp, buf, out, delivered, stats, lastDel, excused, base, hist>>
 view == <<cfg, exp, buf, out, stats, lastDel>>
 
 Mod16(x)    == ((x % 65536) + 65536) % 65536
@@ -66,7 +67,7 @@ Reds(k)     == [i \in 1..(IF k - 1 < cfg.depth THEN k - 1 ELSE cfg.depth) |->
 Init ==
   /\ cfg \in {[depth |-> d, start |-> s, max |-> m, stride |-> g] : d \in Depths, s \in Starts, m \in MaxSizes, g \in Gaps}
   /\ (cfg.stride > 1 => cfg.depth = 0)       \* a stride stands for a burst loss: no redundancy reaches across it
-  /\ excused = {}
+  /\ excused = {} /\ base = 0
   /\ exp = cfg.start /\ buf = {} /\ out = <<>> /\ delivered = <<>>
   /\ stats = [recv |-> 0, lost |-> 0, recovered |-> 0] /\ lastDel = -1 /\ hist = <<>>
 
@@ -132,7 +133,8 @@ RecvIntended(k) ==
 
 Recv(k) ==
   /\ Len(hist) < MaxLen
-  /\ hist' = Append(hist, k)
+  /\ hist' = Append(hist, [op |-> "recv", k |-> k])
+  /\ base' = base
   /\ (IF Design = "pinned" THEN RecvPinned(k) ELSE RecvIntended(k))
   \* ghost, independent of the design: what this datagram carries that is already behind `expected`
   /\ LET r == Reds(k)
@@ -140,7 +142,16 @@ Recv(k) ==
      IN excused' = excused \cup {j \in carried : ~Ahead(SeqOf(j), exp)}
   /\ UNCHANGED cfg
 
-Next == \E k \in 1..N : Recv(k)
+\* UdtlReceiveBuffer::reset(expected): resynchronise on datagram j; nothing buffered survives
+Reset(j) ==
+  /\ Len(hist) < MaxLen
+  /\ Len(hist) > 0 /\ hist[Len(hist)].op # "reset"
+  /\ hist' = Append(hist, [op |-> "reset", k |-> j])
+  /\ exp' = SeqOf(j) /\ buf' = {} /\ out' = <<>>
+  /\ delivered' = <<>> /\ excused' = {} /\ base' = Len(hist')
+  /\ UNCHANGED <<cfg, stats, lastDel>>
+
+Next == (\E k \in 1..N : Recv(k)) \/ (\E j \in {1, 3} : Reset(j))
 Spec == Init /\ [][Next]_vars
 
 ---------------------------------------------------------------------------
@@ -148,7 +159,7 @@ Spec == Init /\ [][Next]_vars
 Bounded == Len(hist) <= MaxLen
 \* payloads leave in order, none twice
 InOrderNoDup == \A i \in 1..(Len(delivered) - 1) : delivered[i] < delivered[i + 1]
-Arrived   == {hist[i] : i \in 1..Len(hist)}
+Arrived   == {hist[i].k : i \in (base + 1)..Len(hist)}
 Carried   == Arrived \cup UNION {{Reds(k)[i] : i \in 1..Len(Reds(k))} : k \in Arrived}
 DelivSet  == {delivered[i] : i \in 1..Len(delivered)}
 Waiting   == {x.id : x \in buf}
